@@ -29,6 +29,7 @@ type Obligation struct {
 	Expect   string // "" normal (goal must be valid = negation unsat); "sat": vacuity guard (query must be sat)
 	Extra    []string
 	Fail     string // non-empty: engine could not generate (unsupported construct) -> fails closed
+	Cover    string // ensures obligations: exit condition and clause antecedent (must be satisfiable somewhere)
 }
 
 type Unit struct {
@@ -456,7 +457,13 @@ func (u *Unit) ghostFields(t types.Type) []ghostField {
 	sort.Strings(names)
 	var out []ghostField
 	for _, k := range names {
-		ty, err := u.resolveType(m[k], n.Obj().Pkg())
+		rp := n.Obj().Pkg()
+		if dp := u.eng.specs.GhostDeclPkg[n.Obj().Pkg().Path()+"."+n.Obj().Name()][k]; dp != "" {
+			if tp := u.eng.typesPkg(dp); tp != nil {
+				rp = tp
+			}
+		}
+		ty, err := u.resolveType(m[k], rp)
 		if err != nil {
 			panic(err)
 		}
